@@ -8,6 +8,41 @@ open Code
 
 /-! ### One step -/
 
+theorem splitClose_length : ∀ (l b a : List Nat), splitClose l = some (b, a) → a.length < l.length
+  | [], _, _, h => by simp [splitClose] at h
+  | y :: l, b, a, h => by
+    simp only [splitClose] at h
+    split at h
+    · simp at h; simp [← h.2]
+    · split at h
+      · simp at h
+      · rename_i b' a' heq
+        simp at h
+        have := splitClose_length l b' a' heq
+        simp [← h.2]; omega
+
+theorem classStep_adv_length {q p' : List Nat} {c : Nat} (h : classStep q c = .adv p') : p'.length < q.length := by
+  unfold classStep at h
+  split at h
+  · simp at h
+  · rename_i cls rest hsc
+    dsimp only at h
+    by_cases hc : (classMatch c (if (cls.head? == some 94) = true then cls.tail else cls) != (cls.head? == some 94)) = true
+    · rw [if_pos hc] at h
+      simp only [GStep.adv.injEq] at h
+      subst h
+      exact splitClose_length q cls rest hsc
+    · rw [if_neg hc] at h
+      simp at h
+
+theorem classStep_ne_star {q p' : List Nat} {c : Nat} : classStep q c ≠ .star p' := by
+  unfold classStep
+  split
+  · simp
+  · dsimp only
+    intro h
+    split at h <;> split at h <;> simp at h
+
 theorem globStep_adv_length {p p' : List Nat} {c : Nat} (h : globStep p c = .adv p') : p'.length < p.length := by
   unfold globStep at h
   split at h
@@ -18,29 +53,8 @@ theorem globStep_adv_length {p p' : List Nat} {c : Nat} (h : globStep p c = .adv
     · split at h
       · simp at h
       · split at h
-        · split at h
-          · simp at h
-          · rename_i cls rest hsc
-            split at h
-            · simp at h
-              have : ∀ (l b a : List Nat), splitClose l = some (b, a) → a.length < l.length + 1 := by
-                intro l
-                induction l with
-                | nil => intro b a h; simp [splitClose] at h
-                | cons y l ih =>
-                  intro b a h
-                  simp only [splitClose] at h
-                  split at h
-                  · simp at h; simp [← h.2]; omega
-                  · split at h
-                    · simp at h
-                    · rename_i b' a' heq
-                      simp at h
-                      have := ih b' a' heq
-                      simp [← h.2]; omega
-              have := this q cls rest hsc
-              simp [← h]; omega
-            · simp at h
+        · have := classStep_adv_length h
+          simp; omega
         · split at h
           · split at h
             · split at h
@@ -63,9 +77,7 @@ theorem globStep_star_length {p p' : List Nat} {c : Nat} (h : globStep p c = .st
     · split at h
       · simp at h; simp [← h]
       · split at h
-        · split at h
-          · simp at h
-          · split at h <;> simp at h
+        · exact absurd h classStep_ne_star
         · split at h
           · split at h
             · split at h <;> simp at h
@@ -74,6 +86,18 @@ theorem globStep_star_length {p p' : List Nat} {c : Nat} (h : globStep p c = .st
 
 /-! ### Fuel -/
 
+theorem globLoop_cons (f : Nat) (p : List Nat) (c : Nat) (t : List Nat) (s : Option (List Nat × List Nat)) :
+    globLoop (f + 1) p (c :: t) s =
+      match globStep p c with
+      | .adv p' => globLoop f p' t s
+      | .star p' => globLoop f p' (c :: t) (some (p', c :: t))
+      | .fail =>
+        match s with
+        | none => some false
+        | some (ps, ts) => globLoop f ps ts.tail (some (ps, ts.tail)) := by
+  simp only [globLoop]
+  rfl
+
 theorem globLoop_succ : ∀ (f : Nat) (p t : List Nat) (s : Option (List Nat × List Nat)) (b : Bool),
     globLoop f p t s = some b → globLoop (f + 1) p t s = some b
   | 0, _, _, _, _, h => by simp [globLoop] at h
@@ -81,7 +105,7 @@ theorem globLoop_succ : ∀ (f : Nat) (p t : List Nat) (s : Option (List Nat × 
     simp only [globLoop] at h ⊢
     exact h
   | f + 1, p, c :: t, s, b, h => by
-    rw [globLoop] at h ⊢
+    rw [globLoop_cons] at h ⊢
     cases hgs : globStep p c with
     | adv p' =>
       simp only [hgs] at h ⊢
@@ -117,7 +141,7 @@ theorem globLoop_isSome (P : Nat) : ∀ (f : Nat) (p t : List Nat) (s : Option (
   | 0, _, _, _, _, _, h => by omega
   | f + 1, p, [], s, _, _, _ => by simp [globLoop]
   | f + 1, p, c :: t, s, hp, hs, hμ => by
-    rw [globLoop]
+    rw [globLoop_cons]
     cases hgs : globStep p c with
     | adv p' =>
       simp only
@@ -201,7 +225,7 @@ theorem globChars_of_run {f : Nat} {p t : List Nat} {b : Bool} (h : globLoop f p
 theorem star_run : ∀ (t : List Nat), globLoop (t.length + 1) [] t (some ([], t)) = some true
   | [] => by simp [globLoop]
   | c :: t => by
-    rw [show (c :: t).length + 1 = (t.length + 1) + 1 by simp, globLoop]
+    rw [show (c :: t).length + 1 = (t.length + 1) + 1 by simp, globLoop_cons]
     simp only [globStep, List.tail_cons]
     exact star_run t
 
@@ -211,7 +235,7 @@ theorem globChars_star (t : List Nat) : globChars [42] t = true := by
   | nil => exact globChars_of_run (f := 1) (by simp [globLoop])
   | cons c t =>
     apply globChars_of_run (f := (c :: t).length + 1 + 1)
-    rw [globLoop]
+    rw [globLoop_cons]
     simp only [globStep]
     simp only [show (42 : Nat) ≠ 63 by decide, if_false, if_true]
     exact star_run (c :: t)
@@ -229,10 +253,10 @@ theorem literal_run : ∀ (p t : List Nat), (∀ x ∈ p, plain x) →
   | [], [], _ => by simp [globLoop]
   | [], c :: t, _ => by simp [globLoop, globStep]
   | x :: p, [], h => by
-    have hx := (h x (by simp)).1
+    have hx : (x == 42) = false := by simp [(h x (by simp)).1]
     simp [globLoop, List.dropWhile, hx]
   | x :: p, c :: t, h => by
-    rw [show (x :: p).length + 1 = (p.length + 1) + 1 by simp, globLoop, globStep_plain (h x (by simp))]
+    rw [show (x :: p).length + 1 = (p.length + 1) + 1 by simp, globLoop_cons, globStep_plain (h x (by simp))]
     by_cases hxc : x = c
     · subst hxc
       simp only [if_true]
@@ -270,18 +294,18 @@ theorem prefix_star_run : ∀ (p t : List Nat), (∀ x ∈ p, plain x) →
     | nil => simp [globLoop, List.dropWhile]
     | cons c t =>
       have h1 : globLoop ((c :: t).length + 1 + 1) [42] (c :: t) none = some true := by
-        rw [globLoop]
+        rw [globLoop_cons]
         simp only [globStep]
         simp only [show (42 : Nat) ≠ 63 by decide, if_false, if_true]
         exact star_run (c :: t)
       have := globLoop_mono (f' := ([] : List Nat).length + (c :: t).length + 3) (by simp) h1
       simpa using this
   | x :: p, [], h => by
-    have hx := (h x (by simp)).1
-    simp [globLoop, List.dropWhile, hx]
+    have hx : (x == 42) = false := by simp [(h x (by simp)).1]
+    simp [globLoop, hx]
   | x :: p, c :: t, h => by
     rw [show (x :: p).length + (c :: t).length + 3 = (p.length + t.length + 3 + 1) + 1 by simp; omega]
-    rw [globLoop]
+    rw [globLoop_cons]
     simp only [List.cons_append, globStep_plain (h x (by simp))]
     by_cases hxc : x = c
     · subst hxc
